@@ -48,3 +48,16 @@ Proof.
   vm_compute no_bad. cbn [andb]. cbn. destruct (N.leb_spec 1 n); [reflexivity|lia].
 Qed.
 Print Assumptions C18_header_accepted.
+
+(* ---- whole programs ---- *)
+From QI Require Import Model.QasmLower Proofs.C18b.
+(* every body the exporter can emit (any instruction list whose gate names are not the keyword `ctrl` and whose gates
+   have a target) is consumed statement by statement into the intended abstract syntax, whatever its length *)
+Theorem C18_body_parses : forall is k fuel, Forall instr_wf is -> (List.length (body_toks k is) < fuel)%nat ->
+  p_stmts fuel (body_toks k is) = Some (body_stmts k is).
+Proof. exact body_parses. Qed.
+(* and so is the whole program: version, include, routine definitions, registers, body *)
+Theorem C18_program_parses : forall n is, Forall instr_wf is ->
+  p_program (program_toks n is) = Some (header_stmts ++ [SQubitDecl n] ++ decl_stmts is ++ body_stmts 0 is).
+Proof. exact program_parses. Qed.
+Print Assumptions C18_body_parses. Print Assumptions C18_program_parses.
